@@ -1096,10 +1096,11 @@ def registration_rules(repo, chk, rule, members):
     for k, v in want.items():
         got = set(m for m in members if k in regs[m])
         chk.expect(got == v, rule, "%s receives exactly the control types %s" % (k, sorted(v)), loc(gm), found=sorted(got))
-    need = ["self._wn.controls()", "self._get_all_tank_controls()", "self._get_cv_controls()", "self._get_pump_controls()", "self._get_valve_controls()"]
-    missing = sorted(set("%s controls from %s -> %s" % (m, n_, k) for m in members for k, srcs in regs[m].items() for n_ in need if not any(n_ in s_ for s_ in srcs)))
-    allsrcs = sorted(set(s_ for m in members for srcs in regs[m].values() for s_ in srcs))
-    chk.expect(not missing and bool(allsrcs), rule, "user controls and all internal control families are categorised", loc(gm), found=missing[:4] or allsrcs)
+    # that the user's controls and every family of internal controls reach the managers is decided by running _get_control_managers on the fixture models
+    # (interpreted, shared with R-C05-9): the managers hold as many controls of each type as the model and the four builders supply.  (Until refactoring
+    # round 5 this was a comparison of the source iterables' texts with five expected call texts; it fired on one loop over itertools.chain of the builders.)
+    from .c05 import manager_rules
+    manager_rules(repo, chk, rule)
     chk.sample({"rule": rule, "registrations": dict((m, dict((k, sorted(v)) for k, v in regs[m].items())) for m in members)})
 
 
